@@ -9,7 +9,7 @@ from ECAgent.Core import Model, System
 from ECAgent.Collectors import Collector
 from ECAgent.Batching import ParameterList, batch_run
 from vf.engine import Violation, InvalidCase, quiesce
-from vf.fixtures import check, expect_raises
+from vf.fixtures import check, expect_raises, wone_of
 
 PROPERTY = "C15"
 CASE_TIMEOUT_S = 20      # a case normally takes < 0.2 s; see DESIGN.md 2.9 (hang handling)
@@ -224,16 +224,16 @@ def strategy(tier):
     maxp = 5 if tier == "quick" else 16
     small = st.lists(st.integers(0, 3), min_size=1, max_size=3)
     return st.fixed_dictionaries({
-        "a": st.one_of(small, small, st.integers(0, 3)),
-        "b": st.one_of(st.integers(0, 3), st.lists(st.integers(0, 2), min_size=1, max_size=2)),
-        "stop": st.one_of(st.integers(0, 6), st.integers(1, 6), st.lists(st.integers(0, 6), min_size=1, max_size=2)),
+        "a": wone_of(small, small, st.integers(0, 3)),
+        "b": wone_of(st.integers(0, 3), st.lists(st.integers(0, 2), min_size=1, max_size=2)),
+        "stop": wone_of(st.integers(0, 6), st.integers(1, 6), st.lists(st.integers(0, 6), min_size=1, max_size=2)),
         "cost": st.sampled_from([0, 0, 2, 4]),
         "reps": st.integers(1, 3),
-        "processes": st.one_of(st.just(1), st.integers(2, maxp), st.integers(2, maxp), st.integers(2, 3)),
-        "max_timesteps": st.one_of(st.none(), st.integers(0, 8)),
+        "processes": wone_of(st.just(1), st.integers(2, maxp), st.integers(2, maxp), st.integers(2, 3)),
+        "max_timesteps": wone_of(st.none(), st.integers(0, 8)),
         "collectors": st.sampled_from(["rec", "rec", ["pre", "rec"], ["pre", "rec"], ["rec"], ["rec", "rec2"], "none", "invalid"]),
         "plist": st.booleans(),
-        "fail": st.one_of(st.none(), st.none(), st.none(), st.none(), st.integers(0, 11)),
+        "fail": wone_of(st.none(), st.none(), st.none(), st.none(), st.integers(0, 11)),
         "fail_where": st.sampled_from(["ctor", "system"]),
     })
 
